@@ -19,7 +19,10 @@
       frees its slot) and the push of its payload into the unused-ring are TWO steps ([A_remove],
       [A_push]) with the payload "in flight" ([st_inflight]) in between, as in the code
       ([for (_, r) in drain_filter(..) { push(r) }], [let r = remove(key).unwrap(); push(r)]): the
-      gameplay thread can run a whole [insert] in that window (finding F22).
+      gameplay thread can run a whole [insert] in that window (finding F27; since /repo 38abf69 the
+      unused-ring has capacity + 1 slots, which is what this model has: [unused_cap]).
+    - [ResourceController::try_reserve] answers the limit error itself when the capacity is 0
+      (/repo 1316c08, finding F2); [ctl_try_reserve] below is atomic_arena's, which would panic.
     - [usize] is [nat]: the generation counter does not wrap (2^64 removals of one slot are out of scope).
     - The arena's doubly linked list of occupied slots is the list [aorder] of slot indices, head first
       (iteration order of [Iter], [IterMut] and [DrainFilter]: most recently inserted first).
@@ -148,6 +151,9 @@ Inductive thread := Gameplay | Audio.
     tracks), whether the payload exists before the key is reserved (sounds, tracks: it is then dropped
     by the caller when the limit is reached), and the capacity given to [new] (arena and both rings) *)
 Record cfg := mkCfg { selfref : bool; prebuild : bool; cap : nat }.
+(** [ResourceStorage::new] / [SelfReferentialResourceStorage::new]: the arena and the new-resource
+    ring get [capacity], the unused-resource ring [capacity + 1] *)
+Definition unused_cap (cf : cfg) : nat := S (cap cf).
 
 (** program counter of the gameplay thread inside [ResourceController::insert] /
     [try_reserve; insert_with_key] *)
@@ -200,11 +206,15 @@ Definition reject_payload (s : state) : state :=
        (S (st_next s)) (st_created s) (st_removed s) ((st_next s, Gameplay) :: st_destroyed s)
        (st_callbacks s) (st_log s) (st_inflight s).
 
-(** [ResourceController::try_reserve] *)
+(** [ResourceController::try_reserve]: [if capacity() == 0 { return Err(ResourceLimitReached) }]
+    in front of atomic_arena's [try_reserve] *)
+Definition res_try_reserve (c : ctl) : outcome reserve_result :=
+  if ctl_capacity c =? 0 then Ok ArenaFull else ctl_try_reserve c.
+
 Definition g_reserve (cf : cfg) (s : state) : outcome state :=
   match st_g s with
   | GIdle =>
-      let! r := ctl_try_reserve (st_ctl s) in
+      let! r := res_try_reserve (st_ctl s) in
       match r with
       | ArenaFull => Ok (if prebuild cf then reject_payload s else s)   (* Err(ResourceLimitReached) *)
       | Reserved k c' =>
@@ -272,7 +282,7 @@ Definition a_remove (cf : cfg) (s : state) : outcome state :=
   match st_a s, st_inflight s with
   | ARemoving [], None => Ok (set_a s AAdding)
   | ARemoving (k :: rest), None =>
-      if selfref cf && ring_is_full (cap cf) (st_unused s) then Ok (set_a s AAdding)
+      if selfref cf && ring_is_full (unused_cap cf) (st_unused s) then Ok (set_a s AAdding)
       else
         let! g := arena_get (st_ar s) k in
         match g with
@@ -301,7 +311,7 @@ Definition a_remove (cf : cfg) (s : state) : outcome state :=
 Definition a_push (cf : cfg) (s : state) : outcome state :=
   match st_inflight s with
   | Some p =>
-      match ring_push (cap cf) (st_unused s) p with
+      match ring_push (unused_cap cf) (st_unused s) p with
       | None => Panic QueueFull                 (* "unused resource producer is full" *)
       | Some u' =>
           Ok (mkSt (st_ctl s) (st_ar s) (st_keys s) (st_newq s) u' (st_marked s) (st_g s) (st_a s)
